@@ -355,6 +355,18 @@ func addStepCase(o *Out, g *G, as *ASpec, st *AState, pending interface{}, nilCt
 		o.count("permanent-bindings-off")
 	}
 	wrapGuards(spec)
+	if g.chance(0.4) {
+		// steps of other machines over this very Spec object come first
+		for k := 1 + g.intn(3); k > 0; k-- {
+			ost := g.astate(as)
+			var opend interface{}
+			if g.chance(0.6) {
+				opend = g.messageFor(as, ost.Node, ost)
+			}
+			runStep(spec, ost.core(), opend, ctl, nil, false)
+		}
+		o.count("spec-used-by-other-machines-before")
+	}
 	resetGuardLog()
 	r1 := runStep(spec, st.core(), deepCopy(pending, nil), ctl, props, loop)
 	glog := takeGuardLog()
@@ -740,6 +752,22 @@ func walkComponent(g *G, n int, opts map[string]string) *Out {
 					o.count("adaptive-breakpoint")
 				}
 			}
+		}
+		if replay == nil && g.chance(0.5) {
+			// other machines have been walked over this very Spec object before (a compiled specification is shared by
+			// all machines that use it): what they did must not show in this walk
+			for k := 1 + g.intn(3); k > 0; k-- {
+				ost := g.astate(as)
+				var omsgs []interface{}
+				onode := ost.Node
+				for j := g.intn(3); j > 0; j-- {
+					omsgs = append(omsgs, g.messageFor(as, onode, ost))
+					names := sortedKeys(nodesAsMap(as))
+					onode = names[g.intn(len(names))]
+				}
+				runWalk(spec, ost.core(), omsgs, &core.Control{Limit: 1 + g.intn(8)}, nil, loop)
+			}
+			o.count("spec-used-by-other-machines-before")
 		}
 		r1 := runWalk(spec, st.core(), deepCopy(msgs, nil).([]interface{}), ctl, props, loop)
 		r2 := runWalk(spec, st.core(), deepCopy(msgs, g).([]interface{}), ctl, props, loop)
